@@ -9,7 +9,7 @@ PROP = "C12"
 GENERATED = ['SharedState', 'Core', 'Wrapper', 'SrcDecorate', 'Decorate']  # generated files this check's tie depends on
 LEAN_MODULES = ["Properties.C12", "Properties.Core", "Properties.CoreWrap", "Properties.Prov.Decorate", "Properties.CoreDecorate"]
 RULE = (
-    "corpus; histories over functions and methods with a provider object / \"self\" / an object that does not implement the protocol / "
+    "corpus; histories over functions and methods with a provider object / \"self\" / an object (or a string other than \"self\") that does not implement the protocol / "
     "\"self\" on a function without self, the same method through two instances with mappings of their own: provider mappings empty, binding used and unused names, conflicting with a literal, referred to "
     "inside expressions, changed between calls, returned as a fresh dict or as one long-lived dict; the verdict of every call must be the "
     "fresh verdict under the provider's values at that moment (model) and the provider's mapping must be unchanged afterwards. "
@@ -23,7 +23,7 @@ def gen(rng, tier) -> str:
     sh = rng.sample(SHAPES, 3)
     for i, s in enumerate(sh):
         steps.append(f"A|T{i}|FloatTensor,0,{s}")
-    kinds = {"p1": "fresh", "p2": "long", "p3": rng.choice(["bad", "bad", "badfalsy"]), "p4": "falsy"}
+    kinds = {"p1": "fresh", "p2": "long", "p3": rng.choice(["bad", "bad", "badfalsy", "badstr"]), "p4": "falsy"}
     for pid, kind in kinds.items():
         steps.append(f"V|{pid}|{kind}|{rng.choice(['', 'k:3', 'k:3;n:4', 'a:2;k:3', 'z:9', 'k:2;n:4', 'k:3;n:6'])}")
     fns = {}
@@ -106,7 +106,7 @@ def _expected(line: str):
                 scope = {}
             elif kind.get(p) in ("fresh", "long", "falsy"):
                 scope = cur[p]
-            elif kind.get(p) in ("bad", "badfalsy"):
+            elif kind.get(p) in ("bad", "badfalsy", "badstr"):
                 exp.append(("call", "not-a-provider"))   # an object that does not implement the protocol
                 continue
             else:
